@@ -161,6 +161,22 @@ theorem embedded_props_exact (d : Doc) (h : WFm d.m) (kvs : AMap Node) (hcb : d.
     have := beforeSave_other hw (k := k) (by rw [e4]; exact hb) (by rw [e5]; exact ht)
     rw [this, e3]
 
+/-
+  Not proved here (stated, covered by the correspondence harness only):
+
+  * `embedded_props_roundtrip` — for a document representable as properties (string leaves, no
+    empty container / list below the root, path-safe keys):
+      `docSave .props d = .ok (d2, file) → openDoc .props file = .ok d3 → d3.cb = d.cb`.
+    With `embedded_props_exact` this reduces to "rebuilding a document from its flattened
+    pairs with AddValueAt in sorted key order gives the document back", which is C02/C16's
+    rebuild theorem about `Dom.addValueAt` / `Dom.flatten`, not a fact about the k8s code.
+    (A document holding an empty list / container is not representable: `l: [[], true]`
+    flattens to `l[1]` only and reopens as `l: [null, true]`; the harness asks the equality
+    of representable documents only and compares the others with the model.)
+  * the YAML codec contract for the manifest body (`decode (encode v) = v` on written bodies)
+    and the embedded text codecs' contract (`CodecRoundTrips`) are hypotheses.
+-/
+
 /-! ### non-vacuity -/
 
 def exSecret : Val := .obj [
